@@ -47,6 +47,8 @@ struct Registry {
   std::vector<std::string> atoms;   // canonical events on wrapper storage during the current step
   std::vector<std::string> misuse;  // operations applied to storage in the wrong lifetime state
   bool quiet = false;               // dump in progress: check, do not log
+  bool implicit_end = false;        // payload kind without destructor: a lifetime ends by storage reuse / with the wrapper
+  bool track = true;                // payload kind with trivial copies: objects appear without a constructor call we can see
   void atom(char k, const void *p)
   {
     int s = slot_of(p);
@@ -59,13 +61,15 @@ struct Registry {
   }
   void construct(const void *p, char k)
   {
-    if (live.count(p)) bad("new-on-live", p);
+    if (!track) { atom(k, p); return; }
+    if (live.count(p) && !implicit_end) bad("new-on-live", p);
     live.insert(p);
     ++constructs;
     atom(k, p);
   }
   void destroy(const void *p)
   {
+    if (!track) { ++destroys; atom('X', p); return; }
     if (!live.count(p)) bad("dtor-on-raw", p);
     else { live.erase(p); ++destroys; }
     atom('X', p);
@@ -86,7 +90,7 @@ struct Registry {
   void wrapper_gone(int s)
   {
     for (auto it = live.begin(); it != live.end();) {
-      if (slot_of(*it) == s) { bad("leak", *it); it = live.erase(it); ++destroys; }
+      if (slot_of(*it) == s) { if (!implicit_end) bad("leak", *it); it = live.erase(it); ++destroys; }
       else ++it;
     }
   }
@@ -158,6 +162,79 @@ template <int K, int J> bool operator<(const Trk<K> &a, const Trk<J> &b) { retur
 template <int K, int J> bool operator<=(const Trk<K> &a, const Trk<J> &b) { return cmp3(a, b) <= 0; }
 template <int K, int J> bool operator>(const Trk<K> &a, const Trk<J> &b) { return cmp3(a, b) > 0; }
 template <int K, int J> bool operator>=(const Trk<K> &a, const Trk<J> &b) { return cmp3(a, b) >= 0; }
+
+// payload kinds along the trait lattice (besides Trk: everything user-provided, and the trivially copyable int/Over/KS2/double)
+// Tnd: TRIVIALLY DESTRUCTIBLE, but user-provided copy/move constructors and assignments that matter: the object keeps
+//      a pointer to itself (a bytewise copy would alias the source) and every special member is logged, so the trace
+//      shows exactly which payload operation each wrapper operation ran.  is_trivially_destructible is true,
+//      is_trivially_copyable is false.
+template <int K>
+struct Tnd {
+  long code;
+  const Tnd *self;
+  Tnd() : code(0), self(this) { G.construct(this, 'D'); }
+  Tnd(Code c) : code(c.v), self(this) { G.construct(this, 'C'); }
+  Tnd(const Tnd &o) : code(G.read(&o, false) ? o.code : -1), self(this) { G.construct(this, 'C'); }
+  Tnd(Tnd &&o) : code(-1), self(this)
+  {
+    if (G.read(&o, true)) { code = o.code; o.code = 0; }
+    G.construct(this, 'C');
+  }
+  template <int J, typename = typename std::enable_if<J == 0 && K == 1>::type>
+  Tnd(const Tnd<J> &o) : code(G.read(&o, false) ? o.code : -1), self(this) { G.construct(this, 'C'); }
+  template <int J, typename = typename std::enable_if<J == 0 && K == 1>::type>
+  Tnd(Tnd<J> &&o) : code(-1), self(this)
+  {
+    if (G.read(&o, true)) { code = o.code; o.code = 0; }
+    G.construct(this, 'C');
+  }
+  Tnd &operator=(const Tnd &o)
+  {
+    long c = G.read(&o, false) ? o.code : -1;
+    G.assign(this);
+    code = c;
+    return *this;
+  }
+  Tnd &operator=(Tnd &&o)
+  {
+    long c = -1;
+    if (G.read(&o, true)) { c = o.code; if (&o != this) o.code = 0; }
+    G.assign(this);
+    code = c;
+    return *this;
+  }
+};
+static_assert(std::is_trivially_destructible<Tnd<1>>::value && !std::is_trivially_copy_constructible<Tnd<1>>::value, "Tnd kind");
+template <int K, int J> static long cmp3(const Tnd<K> &a, const Tnd<J> &b)
+{
+  bool la = G.read(&a, false), lb = G.read(&b, false);
+  long x = la ? a.code / 4 : -1, y = lb ? b.code / 4 : -1;
+  return x < y ? -1 : (x > y ? 1 : 0);
+}
+template <int K, int J> bool operator==(const Tnd<K> &a, const Tnd<J> &b) { return cmp3(a, b) == 0; }
+template <int K, int J> bool operator!=(const Tnd<K> &a, const Tnd<J> &b) { return cmp3(a, b) != 0; }
+template <int K, int J> bool operator<(const Tnd<K> &a, const Tnd<J> &b) { return cmp3(a, b) < 0; }
+template <int K, int J> bool operator<=(const Tnd<K> &a, const Tnd<J> &b) { return cmp3(a, b) <= 0; }
+template <int K, int J> bool operator>(const Tnd<K> &a, const Tnd<J> &b) { return cmp3(a, b) > 0; }
+template <int K, int J> bool operator>=(const Tnd<K> &a, const Tnd<J> &b) { return cmp3(a, b) >= 0; }
+// Dto: user-provided default constructor and DESTRUCTOR only; copies are the implicit (trivial) ones, so objects appear
+//      without a visible constructor call: only default constructions and destructions are counted.
+template <int K>
+struct Dto {
+  long code;
+  Dto() : code(0) { G.construct(this, 'D'); }
+  Dto(Code c) : code(c.v) {}
+  template <int J, typename = typename std::enable_if<J == 0 && K == 1>::type>
+  Dto(const Dto<J> &o) : code(o.code) {}
+  ~Dto() { G.destroy(this); }
+};
+static_assert(!std::is_trivially_destructible<Dto<1>>::value, "Dto kind");
+template <int K, int J> bool operator==(const Dto<K> &a, const Dto<J> &b) { return a.code / 4 == b.code / 4; }
+template <int K, int J> bool operator!=(const Dto<K> &a, const Dto<J> &b) { return a.code / 4 != b.code / 4; }
+template <int K, int J> bool operator<(const Dto<K> &a, const Dto<J> &b) { return a.code / 4 < b.code / 4; }
+template <int K, int J> bool operator<=(const Dto<K> &a, const Dto<J> &b) { return a.code / 4 <= b.code / 4; }
+template <int K, int J> bool operator>(const Dto<K> &a, const Dto<J> &b) { return a.code / 4 > b.code / 4; }
+template <int K, int J> bool operator>=(const Dto<K> &a, const Dto<J> &b) { return a.code / 4 >= b.code / 4; }
 
 // ------------------------------------------------------------------ payload families
 // enc is order preserving; code 0 is the value-initialised payload (and what a move leaves behind where mvz)
@@ -233,6 +310,34 @@ struct FamTrk {
   static std::string peekT(const T &x) { return G.live.count(&x) ? std::to_string(x.code) + "L" : std::string("XR"); }
   static std::string peekU(const U &x) { return G.live.count(&x) ? std::to_string(x.code) + "L" : std::string("XR"); }
   static bool liveAt(const void *p) { return G.live.count(p) != 0; }
+};
+struct FamTnd {
+  using T = Tnd<1>; using U = Tnd<0>;
+  static const bool inst = true;
+  static const char *name() { return "tnd"; }
+  static T encT(long v) { return T(Code{v}); }
+  static U encU(long v) { return U(Code{v}); }
+  static long decT(const T &x) { return G.read(&x, false) ? x.code : -1; }
+  static long decU(const U &x) { return G.read(&x, false) ? x.code : -1; }
+  // the object must have been produced by a constructor call at this address, and point to itself
+  template <typename X> static std::string peek(const X &x)
+  {
+    if (!G.live.count(&x)) return "XR!NOT-CONSTRUCTED";
+    return std::to_string(x.code) + "L" + (x.self == &x ? "" : "!SELFPTR");
+  }
+  static std::string peekT(const T &x) { return peek(x); }
+  static std::string peekU(const U &x) { return peek(x); }
+};
+struct FamDto {
+  using T = Dto<1>; using U = Dto<0>;
+  static const bool inst = true;
+  static const char *name() { return "dto"; }
+  static T encT(long v) { return T(Code{v}); }
+  static U encU(long v) { return U(Code{v}); }
+  static long decT(const T &x) { return x.code; }
+  static long decU(const U &x) { return x.code; }
+  static std::string peekT(const T &x) { return std::to_string(x.code) + "L"; }
+  static std::string peekU(const U &x) { return std::to_string(x.code) + "L"; }
 };
 struct FamStr {
   using T = std::string; using U = StrU;
@@ -405,6 +510,13 @@ template <typename A, typename B> static bool docmp(const std::string &c, const 
   return a >= b;
 }
 
+// how the live-address registry treats a payload kind: 0 = every lifetime event is visible (Trk),
+// 1 = no destructor: a lifetime ends implicitly when the wrapper disengages / its storage is reused (Tnd),
+// 2 = trivial copies: objects appear without a visible constructor call, only 'D' and 'X' are counted (Dto)
+template <typename F> struct RegMode { static const int v = 0; };
+template <> struct RegMode<FamTnd> { static const int v = 1; };
+template <> struct RegMode<FamDto> { static const int v = 2; };
+
 template <typename F> struct Run {
   using T = typename F::T; using U = typename F::U;
   using OT = Optional<T>; using OU = Optional<U>;
@@ -428,12 +540,14 @@ template <typename F> struct Run {
       if (k == 1) {
         const OT &o = at<T>(i);
         r += "T";
+        if (RegMode<F>::v == 1 && !o.has_value()) G.live.erase(o.operator->());   // lifetime ended without a destructor
         if (o.has_value()) r += "v" + F::peekT(*o);
         else r += std::string("e") + live_suffix(o.operator->());
         r += misal(o);
       } else {
         const OU &o = at<U>(i);
         r += "U";
+        if (RegMode<F>::v == 1 && !o.has_value()) G.live.erase(o.operator->());
         if (o.has_value()) r += "v" + F::peekU(*o);
         else r += std::string("e") + live_suffix(o.operator->());
         r += misal(o);
@@ -586,6 +700,8 @@ template <typename F> struct Run {
     for (int i = 0; i < NSLOTS; ++i) { g_slots[i].kind = 0; scrub(i); unsetenv(env_name(i).c_str()); }
     unsetenv(env_name(7).c_str());          // the name that is never set
     G = Registry();
+    G.implicit_end = RegMode<F>::v == 1;
+    G.track = RegMode<F>::v != 2;
     std::string line;
     for (auto &tok : ops) {
       std::string out = step(tok);
@@ -598,9 +714,137 @@ template <typename F> struct Run {
       if (g_slots[i].kind) step("d:" + std::to_string(i));
     std::string at = G.take_atoms();
     std::string out = "end" + G.take_misuse();
-    if (!G.live.empty() || G.constructs != G.destroys)
+    if (RegMode<F>::v == 0 && (!G.live.empty() || G.constructs != G.destroys))
       out += "!UNBALANCED(" + std::to_string(G.constructs) + "/" + std::to_string(G.destroys) + ")";
     line += fmt(out, at, dump());
+    return line;
+  }
+};
+
+// ------------------------------------------------------------------ move-only payload
+// Mov: copy constructor and copy assignment deleted; everything else user-provided and logged.  Only the members of
+// Optional that do not copy the payload can be instantiated: default ctor, make_optional(T&&), emplace(T&&), move
+// ctor, move assignment, reset, dtor, observers by reference, comparisons, toString.
+struct Mov {
+  long code;
+  Mov() : code(0) { G.construct(this, 'D'); }
+  Mov(Code c) : code(c.v) { G.construct(this, 'C'); }
+  Mov(const Mov &) = delete;
+  Mov &operator=(const Mov &) = delete;
+  Mov(Mov &&o) : code(-1)
+  {
+    if (G.read(&o, true)) { code = o.code; o.code = 0; }
+    G.construct(this, 'C');
+  }
+  Mov &operator=(Mov &&o)
+  {
+    long c = -1;
+    if (G.read(&o, true)) { c = o.code; if (&o != this) o.code = 0; }
+    G.assign(this);
+    code = c;
+    return *this;
+  }
+  ~Mov() { G.destroy(this); }
+};
+static long mcmp(const Mov &a, const Mov &b)
+{
+  bool la = G.read(&a, false), lb = G.read(&b, false);
+  long x = la ? a.code / 4 : -1, y = lb ? b.code / 4 : -1;
+  return x < y ? -1 : (x > y ? 1 : 0);
+}
+static bool operator==(const Mov &a, const Mov &b) { return mcmp(a, b) == 0; }
+static bool operator!=(const Mov &a, const Mov &b) { return mcmp(a, b) != 0; }
+static bool operator<(const Mov &a, const Mov &b) { return mcmp(a, b) < 0; }
+static bool operator<=(const Mov &a, const Mov &b) { return mcmp(a, b) <= 0; }
+static bool operator>(const Mov &a, const Mov &b) { return mcmp(a, b) > 0; }
+static bool operator>=(const Mov &a, const Mov &b) { return mcmp(a, b) >= 0; }
+struct RunMov {
+  typedef Optional<Mov> OM;
+  static std::string dump()
+  {
+    std::string r;
+    G.quiet = true;
+    for (int i = 0; i < NSLOTS; ++i) {
+      if (i) r += ",";
+      if (!g_slots[i].kind) { r += "-"; continue; }
+      const OM &o = at<Mov>(i);
+      const Mov *p = o.operator->();
+      r += "T";
+      if (o.has_value()) r += "v" + (G.live.count(p) ? std::to_string(p->code) + "L" : std::string("XR"));
+      else r += std::string("e") + (G.live.count(p) ? "L" : "R");
+      if (reinterpret_cast<uintptr_t>(p) % alignof(Mov)) r += "!MISALIGNED";
+    }
+    G.quiet = false;
+    return r;
+  }
+  static std::string step(const std::string &tok)
+  {
+    auto f = split(tok, ':');
+    const std::string &c = f[0];
+    int i = std::stoi(f[1]);
+    auto num = [&](size_t k) { return std::stol(f[k]); };
+    int ki = g_slots[i].kind;
+    if (c == "cd" || c == "mk") {
+      if (num(2) != 0) return "badop";
+      if (ki) return "ill";
+      std::memset(g_slots[i].buf, 0xA5, SLOTSZ);
+      if (c == "cd") new (addr<Mov>(i)) OM();
+      else { Mov t(Code{num(3)}); new (addr<Mov>(i)) OM(rkcommon::utility::make_optional<Mov>(std::move(t))); }
+      g_slots[i].kind = 1;
+      return "ok";
+    }
+    if (c == "cm") {
+      int j = (int)num(2);
+      if (ki || !g_slots[j].kind) return "ill";
+      std::memset(g_slots[i].buf, 0xA5, SLOTSZ);
+      new (addr<Mov>(i)) OM(std::move(at<Mov>(j)));
+      g_slots[i].kind = 1;
+      return "ok";
+    }
+    if (!ki) return "ill";
+    OM &w = at<Mov>(i);
+    if (c == "d") { w.~OM(); g_slots[i].kind = 0; G.wrapper_gone(i); std::memset(g_slots[i].buf, 0xA5, SLOTSZ); return "ok"; }
+    if (c == "am") {
+      int j = (int)num(2);
+      if (!g_slots[j].kind || i == j) return "ill";
+      w = std::move(at<Mov>(j));
+      return "ok";
+    }
+    if (c == "em") { Mov t(Code{num(2)}); w.emplace(std::move(t)); return "ok"; }
+    if (c == "rs") { w.reset(); return "ok"; }
+    if (c == "hv") return w.has_value() ? "true" : "false";
+    if (c == "val") {
+      if (!w) return "val=none";
+      const Mov &m = *static_cast<const OM &>(w);
+      return "val=" + std::to_string(G.read(&m, false) ? m.code : -1);
+    }
+    if (c == "str") return w.toString().empty() ? "str!EMPTY" : "str";
+    if (c == "eq" || c == "ne" || c == "lt" || c == "le" || c == "gt" || c == "ge") {
+      int j = (int)num(2);
+      if (!g_slots[j].kind) return "ill";
+      return docmp(c, static_cast<const OM &>(w), static_cast<const OM &>(at<Mov>(j))) ? "true" : "false";
+    }
+    return "badop";
+  }
+  static std::string history(const std::vector<std::string> &ops)
+  {
+    for (int i = 0; i < NSLOTS; ++i) { g_slots[i].kind = 0; std::memset(g_slots[i].buf, 0xA5, SLOTSZ); }
+    G = Registry();
+    std::string line;
+    for (auto &tok : ops) {
+      std::string out = step(tok);
+      std::string at = G.take_atoms();
+      std::string d = dump();
+      out += G.take_misuse();
+      line += out + "|" + at + "|" + d + " ; ";
+    }
+    for (int i = 0; i < NSLOTS; ++i)
+      if (g_slots[i].kind) step("d:" + std::to_string(i));
+    std::string at = G.take_atoms();
+    std::string out = "end" + G.take_misuse();
+    if (!G.live.empty() || G.constructs != G.destroys)
+      out += "!UNBALANCED(" + std::to_string(G.constructs) + "/" + std::to_string(G.destroys) + ")";
+    line += out + "|" + at + "|" + dump();
     return line;
   }
 };
@@ -818,6 +1062,9 @@ int main(int argc, char **argv)
     std::string r;
     if (kind == "O") {
       if (mode == "trk") r = Run<FamTrk>::history(ops);
+      else if (mode == "tnd") r = Run<FamTnd>::history(ops);
+      else if (mode == "mov") r = RunMov::history(ops);
+      else if (mode == "dto") r = Run<FamDto>::history(ops);
       else if (mode == "str") r = Run<FamStr>::history(ops);
       else if (mode == "vec") r = Run<FamVec>::history(ops);
       else if (mode == "over") r = Run<FamOver>::history(ops);
